@@ -17,6 +17,12 @@ opaque head item parent[k]; the user tail is an arbitrary tuple.
 
 Assumed item-level contract A-NF: transform.uppermost / transform.canonical leave a derived (child/edge) transform of
 the parent's reference at position 0 of the tail and return an equivalent remainder.
+
+Chain rewriting (contracts/c11_chain.py): transform.canonical / uppermost (loop invariants, any chain length) and promote keep
+the length, the composed affine map (fold in an abstract monoid), well-formedness and the outer dimensions, and deliver
+the normal form (iscanonical's predicate / its mirror image), given the item-level contract A-SWAP.
+Item level (contracts/c11_swap.py, BOUNDED native enumeration): the real swapup/swapdown of SimplexEdge (whole `swap` table,
+ndims 1..3), TensorEdge1/2, ScaledUpdim, Updim satisfy A-SWAP in exact rational arithmetic.
 """
 import z3
 from pyvc.contract import Contract, State
@@ -489,14 +495,29 @@ def contracts():
     for t in (0, 2):
         cs += [IndexLookup(t), MaskedLookup(t), ReorderedLookup(t), UniformDerivedLookup(t), DerivedLookup(t)]
     cs += [ChainedLookup(0), ChainedLookup(2), IndexLookupNegative(), IndexLookupForeign(), MaskedForeign(), AxisInverse('unmap-after-map'), AxisInverse('map-after-unmap')]
+    from contracts import c11_chain, c11_swap
+    cs += c11_chain.contracts()
+    cs += c11_swap.contracts()
     return cs
 
 
 TRUSTED = ['pyvc symbolic executor and its Python model; harness contracts compose two real method bodies',
            'numpy.searchsorted axiom (sorted input), argsort of a permutation (L-PERM), cumsum recurrence (L-CUMSUM), L-MONO',
-           'A-NF (assumed item-level contract of uppermost/canonical)']
+           'A-NF (assumed item-level contract of uppermost/canonical, used by the lookup harnesses of the derived sequences)',
+           'chain rewriting (contracts/c11_chain.py): affine maps under composition form a monoid (exact arithmetic); L-MONOID fold lemmas '
+           '(split, singleton, empty, frame) used as explicit instances only, cross-checked on random integer matrices in native/axioms.py; '
+           'L-MONO on the dimensions along a well-formed chain; model of tuple/list of items (index, slice, slice store, +) with CPython clamping',
+           'item-level swaps (contracts/c11_swap.py): the native enumeration harness native/c11.py and exact Fraction arithmetic on the float matrix entries']
 ASSUMPTIONS = ['parent satisfies LOOKUP (structural induction over the nesting of sequence classes: meta-argument)',
                'documented class preconditions: strictly increasing mask indices; permutation indices; derived transforms of a reference are pairwise distinct',
-               'tails of length 0 and 2 are exercised; the bodies only slice the tail (parametric in its length)']
-NOT_COVERED = ['PlainTransforms (lookup by id() sort), StructuredTransforms, ChainedTransforms slicing branches', 'TransformIndex/TransformCoords evaluation, locate(), interface consistency',
-               'transform.canonical/uppermost/promote preserve the composed affine map (DESIGN 4.11; not built)']
+               'tails of length 0 and 2 are exercised; the bodies only slice the tail (parametric in its length)',
+               'canonical/uppermost/promote: A-SWAP (swapup/swapdown of adjacent dimension-compatible items return None or a pair with the same composed map, '
+               'the same outer and matching inner dimensions; only an updim receiver facing a square argument swaps) -- ASSUMED for all items in the unbounded '
+               'proofs, CHECKED for the real classes only on the bounded family of contracts/c11_swap.py',
+               'canonical/uppermost/promote: A-DIM (todims >= fromdims >= 0 for every item); input chains are well-formed (fromdims of an item equals todims of the next); '
+               'swapup/swapdown are pure functions of (receiver, argument) on interned items (C17)',
+               'promote: canonical and uppermost are replaced by their contracts (exactly the postconditions proved for them in this property)']
+NOT_COVERED = ['PlainTransforms (lookup by id() sort over object arrays), EmptyTransforms, StructuredTransforms, ChainedTransforms slicing branches, Transforms.index/contains/__getitem__ dispatch',
+               'TransformIndex/TransformCoords evaluation, locate(), interface consistency',
+               'termination of canonical/uppermost; that canonical/uppermost of a tail keep a derived transform at position 0 (A-NF) is still assumed, not derived from A-SWAP',
+               'A-SWAP for item classes/dimensions outside the bounded family (simplex ndims > 3, deeper tensor nestings); "ndims is reached as soon as possible" in promote beyond head-canonical/tail-uppermost']
